@@ -93,7 +93,7 @@ def run(ctx):
         spec = toy.spec if enc else '-'
         # (a) layout: implementation bytes == independent Lean encoder on the same abstract content
         ops.append('enc %s %s' % (spec, ' '.join(wire.a_msg(d))))
-        expect.append(('enc', 'ok ' + (data.hex() or '-'), d))
+        expect.append(('enc', 'ok ' + (data.hex() or '-'), d if wf else None))
         # (b) round trip on the real code
         tag, back, site = classify(lambda: M.Message.parse(data, crypto=crypto))
         if tag != 'ok':
@@ -184,12 +184,22 @@ def run(ctx):
         for (kind, want, d), out, op in zip(expect, outs, ops):
             if out != want:
                 res.mismatch(op[:400], want[:300], out[:300])
+                if kind == 'enc' and d is not None and out.startswith('ok '):
+                    # the Lean encoder is the independent RFC 7296 section 3 encoder the property refers to (its layout is
+                    # what the round-trip theorems are proved about): different octets for the same well-formed abstract
+                    # content are a failing input of the layout clause, not only a broken tie
+                    res.fail('layout-differs-from-independent-encoder',
+                             'to_bytes() differs from the RFC 7296 section 3 layout produced by the independent encoder',
+                             {'tokens': ' '.join(wire.a_msg(d)), 'implementation': want[3:], 'independent': out[3:]})
         res.extra['model_evaluations'] = len(ops)
     return res
 
 
 def replay(rep):
     r = rep['replay']
+    if 'data' not in r:
+        return False, ('layout violation: abstract message (tokens) and both encodings are in the replay file: %s'
+                       % json.dumps(r)[:400])
     data = bytes.fromhex(r['data'])
     crypto = ToyCrypto(16, 12) if r.get('crypto', '-').startswith('toy') else None
     tag, m, site = classify(lambda: M.Message.parse(data, crypto=crypto))
